@@ -177,8 +177,12 @@ func c18Menu() []c18Dev {
 		"Content-Range":         {"<absent>", "", "garbage", "bytes 0-1/", "bytes 0-1/-5", "bytes 0-1/99999999999999999999", "bytes 3-1/2", "/"},
 		"Content-Length":        {"<absent>", "0", "1", "99999"},
 		"Docker-Content-Digest": {"<absent>", "", "garbage", "sha256:xyz", "sha256:", ":", "sha512:" + strings.Repeat("a", 128), "md5:abc"},
-		"Link":                  {"<absent>", "", "garbage", "<", "<>", "</v2/_catalog?n=1&last=a>; rel=\"next\"", "<http://[::1>; rel=next", "<%zz>"},
-		"OCI-Chunk-Min-Length":  {"<absent>", "", "garbage", "0", "-5", "99999999999999999999", "1"},
+		"Link": {"<absent>", "", "garbage", "<", "<>", "</v2/_catalog?n=1&last=a>; rel=\"next\"", "<http://[::1>; rel=next", "<%zz>",
+			// link parameters in odd shapes: cut after the opening quote, quoted value starting with a comma, several
+			// link-values, parameters without a value, a next link that is not the first
+			"</v2/_catalog?n=1&last=a>; rel=\"", "</v2/_catalog?n=1&last=a>; rel=\",next\"", "</v2/_catalog?n=1&last=a>; rel=\"\"", "</v2/_catalog?n=1&last=a>; rel",
+			"</v2/x>; rel=\"prev\", </v2/_catalog?n=1&last=a>; rel=\"next\"", "</v2/_catalog?n=1&last=a>; title=\"a,b;c\"; rel=next", "</v2/_catalog?n=1&last=a>;;; rel=next;"},
+		"OCI-Chunk-Min-Length": {"<absent>", "", "garbage", "0", "-5", "99999999999999999999", "1"},
 	}
 	for _, h := range []string{"Location", "Range", "Content-Range", "Content-Length", "Docker-Content-Digest", "Link", "OCI-Chunk-Min-Length"} {
 		for _, v := range hvals[h] {
